@@ -200,7 +200,7 @@ func Norm(s string) string { return norm(s) }
 
 func (g *G) feat(f string) { g.features[f] = true }
 
-var plainNames = []string{"a", "b", "c", "id", "name", "count", "flag", "ratio", "tags", "data", "kind", "note", "level", "size", "owner", "email", "when", "items", "opts", "label", "code", "rank", "zone", "unit", "path_id", "user_name", "total_count", "x1", "y2", "lang"}
+var plainNames = []string{"a", "b", "c", "id", "name", "count", "flag", "ratio", "tags", "data", "kind", "note", "level", "size", "owner", "email", "when", "items", "opts", "label", "code", "rank", "zone", "unit", "path_id", "user_name", "total_count", "x1", "y2", "lang", "userIDs", "deviceUUIDs", "apiURLs"}
 
 // hostile names: Go keywords, predeclared identifiers, names that Goify to
 // the same identifier, acronyms, names equal to identifiers the generated code
